@@ -782,7 +782,22 @@ func checkWorkerErrorDelivery(c *Ctx, rule string) {
 									good = false
 								}
 							}
-							c.check(good && sawCopy, rule, name+" worker error offset", pos(in), "error at chunk offset + bytes copied", "the read worker reports its error at "+offT.String()+", not at the chunk's offset plus the bytes it copied: bytes delivered before a short read/EOF are not counted")
+							// bytes can have been copied on the way to this report exactly when a copy reaches it: a report
+							// made before the copy (a guard clause per malformed reply) is at the chunk's offset itself
+							needCopy := false
+							eachInstr(in.Parent(), func(y ssa.Instruction) {
+								if cc := callOf(y); cc != nil && builtinName(cc) == "copy" && !needCopy {
+									// (within one turn of the worker's loop: the copy of the chunk before is another chunk's)
+									barrier := func(ssa.Instruction) bool { return false }
+									if l := innermostLoop(loopsOf(in.Parent()), y.Block()); l != nil {
+										barrier = isLoopHeadStart(l)
+									}
+									if reachAvoiding(in.Parent(), y, func(x ssa.Instruction) bool { return x == in }, barrier) {
+										needCopy = true
+									}
+								}
+							})
+							c.check(good && (sawCopy || !needCopy), rule, name+" worker error offset", pos(in), "error at chunk offset + bytes copied", "the read worker reports its error at "+offT.String()+", not at the chunk's offset plus the bytes it copied: bytes delivered before a short read/EOF are not counted")
 						} else {
 							good := len(offT.coef) == 1 && offT.c == 0
 							for k, v := range offT.coef {
